@@ -17,6 +17,13 @@ fn main() {
         eprintln!("usage: gverif <ID> [--tier quick|thorough] [--replay FILE] [--strict] [--scale F] [--no-evidence]");
         std::process::exit(2);
     }
+    if args[0] == "--worker" {
+        match args.get(1).map(|s| s.as_str()) {
+            Some("C17") => props::c17::worker_main(),
+            _ => std::process::exit(2),
+        }
+        return;
+    }
     let id = args[0].clone();
     let mut tier = match std::env::var("VERIF_TIER").as_deref() {
         Ok("thorough") => Tier::Thorough,
@@ -65,9 +72,12 @@ fn main() {
         "C10" => engine::run(&props::c10::C10, &opts),
         "C11" => engine::run(&props::c11::C11, &opts),
         "C12" => engine::run(&props::c12::C12, &opts),
+        "C13" => engine::run(&props::c13::C13, &opts),
         "C14" => engine::run(&props::c14::C14 { root: opts.root.clone() }, &opts),
         "C15" => engine::run(&props::c15::C15, &opts),
         "C16" => engine::run(&props::c16::C16, &opts),
+        "C17" => engine::run(&props::c17::C17, &opts),
+        "C18" => engine::run(&props::c18::C18, &opts),
         "C19" => engine::run(&props::c19::C19, &opts),
         _ => {
             eprintln!("unknown property {}", id);
